@@ -10,6 +10,8 @@ from ..core import AnalysisError, FUNC, call_attr, calls_in, const, dotted, is_c
 from .c01 import field_rules
 
 EXPLANATION = [
+    'C18.media-type-position: MediaCodecCapabilities reads its media type from the same position of the first octet as its constructor writes it (both unshifted, or both shifted).',
+    'C18.config-options: the L2CAP configuration-option decoder loops while len(data) >= 2, reads type and length as data[0] / data[1] unmasked, takes data[2:2+length] and advances by 2+length, and the encoder writes bytes([type, len]) + value: every option list (3-byte FCS option, types 0x80..0xFF included) round-trips.',
     'C18.sdp-containment: (shared with C17) DataElementParser records the end of the sequence being parsed, refuses an element that ends past it, and puts the outer bound back on every exit of the nested parse (path rule): an empty nested sequence does not leave a stale, too small bound for the siblings that follow.',
     'C18.offset-contract: no field parser with the (data, offset) -> (new_offset, value) contract parses from a slice data[offset:] at 0 and returns the resulting offset without adding the base: offsets stay absolute, so multi-entry lists parse entry after entry.',
     'C18.open-enum-pure: OpenIntEnum._missing_ (behind every open enum field of the codecs) builds the pseudo-member from (cls, value) only: it reads no module-level container and writes nothing on the class, so a parse result does not depend on what was parsed earlier in the process.',
@@ -866,7 +868,53 @@ def sdp_containment_rule(ctx):
     sdp_containment(ctx, 'C18.sdp-containment')
 
 
+def config_options(ctx, rule='C18.config-options'):
+    """L2CAP configuration options are type / length / value triplets with a 2-byte header.  The decoder reads the type and
+    the length octets as they are, loops while a header is left (>= 2 bytes: the FCS option is only 3 bytes long), takes
+    `length` value bytes and advances by 2 + length; the encoder writes exactly that layout."""
+    R, p = ctx.r, ctx.p
+    dec = p.find('bumble.l2cap.L2CAP_Control_Frame.decode_configuration_options')
+    enc = p.find('bumble.l2cap.L2CAP_Control_Frame.encode_configuration_options')
+    if dec is None or enc is None:
+        R.bad(rule, 'bumble.l2cap.L2CAP_Control_Frame.decode_configuration_options / encode_configuration_options', 'anchor missing')
+        return
+    from ..sym import same_ineq
+    loops = [n for n in walk_local(dec) if isinstance(n, ast.While)]
+    R.check(len(loops) == 1 and same_ineq(loops[0].test, 'len(data) >= 2'), rule, 'bumble.l2cap.L2CAP_Control_Frame.decode_configuration_options | loop', 'runs while a 2-byte option header is left',
+            f'the option loop runs under `{norm(loops[0].test) if loops else None}`, not `len(data) >= 2`: a trailing option shorter than that bound (the 3-byte FCS option, always sent last) is silently dropped, so only one end switches FCS on', p.loc(dec))
+    d = {dotted(s_.targets[0]): s_.value for s_ in walk_local(dec) if isinstance(s_, ast.Assign) and len(s_.targets) == 1 and dotted(s_.targets[0])}
+    ok = norm(d.get('value_type')) == 'data[0]' and norm(d.get('length')) == 'data[1]' if d.get('value_type') is not None and d.get('length') is not None else False
+    R.check(ok, rule, 'bumble.l2cap.L2CAP_Control_Frame.decode_configuration_options | header', 'type = data[0], length = data[1], unmasked', f'the option header is read as type = {norm(d.get("value_type")) if d.get("value_type") is not None else None}, length = {norm(d.get("length")) if d.get("length") is not None else None}: a masked or shifted octet does not re-encode to the byte received (option types 0x80..0xFF lose their hint bit)', p.loc(dec))
+    ok2 = d.get('value') is not None and slice_parts(d['value']) == ('data', '2', '2 + length') and d.get('data') is not None and slice_parts(d['data']) == ('data', '2 + length', None)
+    R.check(ok2, rule, 'bumble.l2cap.L2CAP_Control_Frame.decode_configuration_options | value and advance', 'value = data[2:2 + length], then data = data[2 + length:]', 'value slice / advance of the option decoder changed', p.loc(dec))
+    R.check("bytes([option[0], len(option[1])]) + option[1]" in norm(enc), rule, 'bumble.l2cap.L2CAP_Control_Frame.encode_configuration_options', 'type, length, value', 'the option encoder no longer writes type, length, value', p.loc(enc))
+
+
+def media_type_position(ctx):
+    """MediaCodecCapabilities serialises its media type as the whole first octet (bytes([media_type, codec_type])) and so
+    reads it back as the whole first octet: a shift on one side only turns every type other than AUDIO (0) into AUDIO."""
+    R, p = ctx.r, ctx.p
+    rule = 'C18.media-type-position'
+    ci = p.cls('bumble.avdtp.MediaCodecCapabilities')
+    if ci is None:
+        R.bad(rule, 'bumble.avdtp.MediaCodecCapabilities', 'anchor missing')
+        return
+    init, fb = ci.methods.get('__init__'), ci.methods.get('from_bytes')
+    if init is None or fb is None:
+        R.bad(rule, 'bumble.avdtp.MediaCodecCapabilities.__init__ / from_bytes', 'anchor missing')
+        return
+    ser = [x for x in ast.walk(init) if isinstance(x, ast.List) and len(x.elts) == 2 and norm(x.elts[0]) == 'self.media_type']
+    shifted_w = [x for x in ast.walk(init) if isinstance(x, ast.BinOp) and isinstance(x.op, (ast.LShift, ast.RShift)) and 'media_type' in norm(x)]
+    rd = [s_.value for s_ in walk_local(fb) if isinstance(s_, ast.Assign) and dotted(s_.targets[0]) == 'media_type']
+    shifted_r = [x for v in rd for x in ast.walk(v) if isinstance(x, ast.BinOp) and isinstance(x.op, (ast.LShift, ast.RShift, ast.BitAnd))]
+    reads_first = any(isinstance(x, ast.Subscript) and norm(x) == 'data[0]' for v in rd for x in ast.walk(v))
+    R.check(bool(ser) and reads_first and (bool(shifted_w) == bool(shifted_r)), rule, 'bumble.avdtp.MediaCodecCapabilities | media type octet', 'written and read at the same position of the first octet',
+            f'the media type is written {"shifted" if shifted_w else "as the whole first octet"} but read {"shifted / masked" if shifted_r else "as the whole first octet"}: any type other than 0 does not parse back', p.loc(fb))
+
+
 RULES = [
+    ('C18.media-type-position', media_type_position),
+    ('C18.config-options', config_options),
     ('C18.sdp-containment', sdp_containment_rule),
     ('C18.offset-contract', offset_contract),
     ('C18.open-enum-pure', open_enum_pure),
